@@ -32,6 +32,9 @@ THEOREMS = [
     "Aio.C13.server_close_deadline_not_restarted",
     "Aio.C13.closing_state_cancels_heartbeat",
     "Aio.C13.crossing_closes_report_peer_code",
+    "Aio.C13.srv_close_nodrain_skips_drain",
+    "Aio.C13.srv_autoclose_uses_nodrain",
+    "Aio.C13.peer_close_while_write_paused_is_not_blocked",
 ]
 RULE = ("One scenario = a session configuration (server|client, autoclose, autoping, heartbeat in {none,2,8,11 s}, "
         "receive timeout in {none,0.75,3 s}, close timeout in {0.5,1.5,10 s}, writer limit in {1,20,65536} / client default) "
@@ -49,7 +52,9 @@ RULE = ("One scenario = a session configuration (server|client, autoclose, autop
         "autoclose on/off x heartbeat 2/8 s, application waits > 1.5 x heartbeat before close(), peer silent: no PING after the peer's CLOSE, "
         "clean end (peer's code, one CLOSE frame, no exception); (f) peer that keeps sending TEXT/PING/PONG every (timeout-125 ms) for "
         "six rounds after our CLOSE, both sides: close() within the close timeout; (g) crossing closes: receive() parked, peer CLOSE and a "
-        "second task's close() at every tick distance, both sides, autoclose on/off; (h) read-side flow control (oracle only, not in the Lean "
+        "second task's close() at every tick distance, both sides, autoclose on/off; (g2) the peer sends CLOSE but does not read: transport write-paused before / while / after receive() consumes the CLOSE, autoclose on/off, "
+        "writer limit default and tiny, with and without senders: receive() must hand the CLOSE over without waiting in drain(); "
+        "(h) read-side flow control (oracle only, not in the Lean "
         "model): a transport that honours pause_reading(), single messages of size {L-1,L,L+1,L+4096,2L} around the queue's high-water mark "
         "L=2*DEFAULT_CHUNK_SIZE first/last/between small ones, the peer's next frames in the same or a later segment, segments of 4/64/256 KiB, "
         "fast and slow application, many medium messages, and an eager peer pipelining frames in the handshake segment (server: handler "
@@ -376,6 +381,19 @@ def oracle(ctx, cfg, labels, trace, a_end, complete, case, a_start=None):
                               else "C13/peer-close-received/not-a-clean-end", case,
                               f"peer's CLOSE({pcode}) was received and nothing went wrong afterwards, but the session ended with close code "
                               f"{A['cc']}, {n_close} CLOSE frame(s) sent, exception {A['ex']}: {trace[a_end]}")
+    # -- the peer's CLOSE has arrived and receive() has consumed it (closing, peer's code recorded, autoclose running):
+    #    receive() must hand the CLOSE to the application even when the peer does not read (write-paused transport):
+    #    the autoclose must not wait for the transport to drain.  Only the writer's own flow control may hold the CLOSE
+    #    frame back (send_frame parks when _output_size exceeded the writer limit and resets it to 0) — a parked receive()
+    #    with _output_size > 0 is therefore waiting in StreamWriter.drain(), which nothing bounds while the peer stays away.
+    if cfg["side"] == "server" and A["pw"] == "1" and A["g"] == "1" and A["c"] == "1" and A["dw"] == "p" and int(A["os"]) > 0 \
+            and A["cc"] not in ("-", "1006"):
+        for t, st in enumerate(A["tasks"]):
+            if st == "p" and op_at[a_end].get(t) == "recv" and not any(
+                    st2 == "p" and op_at[a_end].get(t2) == "close" for t2, st2 in enumerate(A["tasks"])):
+                ctx.violation("C13/receive-parked/autoclose-waits-for-drain", case,
+                              f"the peer's CLOSE({A['cc']}) was consumed by receive() of task {t}, our CLOSE frame is written, but receive() is "
+                              f"parked in drain() on the write-paused transport with nothing to bound it (close timeout {cfg['close_timeout']} ms): {trace[a_end]}")
     # a close() call ended by CancelledError (at the `_close_wait` await when that future exists)
     close_cancelled = any(
         P[i]["tasks"][t] == "x:cancelled" and P[i - 1]["tasks"][t] == "p" and op_at[i - 1].get(t) == "close"
@@ -685,6 +703,20 @@ def check(ctx):
                         cross.append((c, [("call", 0, "recv"), ("tick",), ("call", 1, "close", 1000)] + [("tick",)] * d1
                                       + [("peer", "close", code)] + [("tick",)] * d2))
     run_and_judge(ctx, cross, "crossing-closes")
+    # the peer sends CLOSE but does not read: the transport is write-paused when receive() consumes the CLOSE (autoclose on/off,
+    # writer limit large / tiny, pause before or after receive() parked, with and without a sender already parked in drain)
+    np_ = []
+    for base in (srv, cli):
+        for ac in (True, False):
+            for lim in ((65536, 1) if base["side"] == "server" else (CLIENT_LIMIT,)):
+                c = dict(base, autoclose=ac, limit=lim, close_timeout=1500)
+                for code in (1000, 4001):
+                    np_.append((c, [("pausew",), ("call", 0, "recv"), ("tick",), ("peer", "close", code), ("tick",), ("tick",), ("tick",)]))
+                    np_.append((c, [("call", 0, "recv"), ("tick",), ("pausew",), ("peer", "close", code), ("tick",), ("tick",)]))
+                    np_.append((c, [("call", 0, "recv"), ("tick",), ("peer", "close", code), ("pausew",), ("tick",), ("tick",)]))
+                    np_.append((c, [("call", 1, "send", 30), ("tick",), ("pausew",), ("call", 2, "send", 30), ("tick",), ("call", 0, "recv"),
+                                    ("tick",), ("peer", "close", code), ("tick",), ("tick",), ("tick",)]))
+    run_and_judge(ctx, np_, "peer-close-while-write-paused")
     # the peer got our CLOSE but keeps talking (TEXT / PING / PONG) at intervals shorter than the close timeout,
     # for several timeouts, and never answers with CLOSE
     chatty = []
